@@ -26,6 +26,16 @@ CLAIMS = {
   'text': 'Sequential FIFO contracts of the real wfcqueue/wfqueue code on quiescent queues of unbounded symbolic length (pool layout + witness): enqueue appends, dequeue (all four variants) removes position 0 and never WOULDBLOCKs, first/next are the induction step of the for_each macros, splice = dest ++ src with the source left empty and reusable, empty() <=> n == 0; legacy cds_wfq incl. dummy recycling; event order of enqueue (SEQ_CST tail exchange before the release link store). Apart (bounded): dequeue/first/next with an enqueuer acting between any two of their shared accesses return the first element and lose, duplicate or reorder nothing.',
   'note': 'Assumed: sequential meaning of the primitives, canonical pool layout. Bounded part: 1 concurrent enqueue (2 atomic steps) and busy-wait loops unwound 3x. Not decided: full linearizability over all schedules, termination of blocking waits.',
  },
+ 'C11': {
+  'category': 'proof',
+  'text': 'Sequential LIFO contracts of the real wfstack / lfstack / rculfstack code on quiescent stacks of unbounded symbolic depth (push, pop, pop_all, first/next step, empty, LAST state, event order of wfstack push). Unbounded ENV proofs (loop contracts, arbitrary interference budget) for lfstack pop and push: exactly one successful CAS, pop returns the head it replaced and installs that node\'s successor (no-ABA rely stated), push links node.next to the head it replaced; retries only consume interference tokens (lock-freedom). Apart (bounded): wfstack pop under one concurrent pusher incl. the LAST state.',
+  'note': 'Assumed: sequential meaning of primitives, pool layout, no-ABA rely provided by the documented synchronisation (mutex / single consumer / RCU + grace period, i.e. C01). END-sentinel pointer arithmetic checks of CBMC are off (idiom). Not decided: linearizability over all schedules.',
+ },
+ 'C12': {
+  'category': 'proof',
+  'text': 'Contracts of the real rculfqueue code: enqueue on a quiescent queue of unbounded length; dequeue on every quiescent shape (footprint argument: the rest of the chain and the tail are unconstrained pointers): oldest real node, NULL iff none, dummy never returned, dummies retired only through queue_call_rcu (exactly once, with free_dummy_cb), never free()d on the dequeue path, fresh dummy appended before the last node leaves; destroy succeeds iff empty and frees exactly the dummy. Apart (bounded): dequeue racing with a concurrent enqueuer loses, duplicates and reorders nothing.',
+  'note': 'Assumed: sequential primitives, CBMC malloc/free model. Bounded part: <= 2 real nodes, 1 concurrent enqueue, loops unwound 4x. Not decided: linearizability over all schedules; no-ABA through grace periods (C01).',
+ },
 }
 for i in range(1, 21):
     k = 'C%02d' % i
